@@ -1,22 +1,34 @@
 (* CorrDefs/CorrC02.v — a dataclass with several fields; some are written on the command line. Shared by C02 and C04. *)
-From SPV Require Export Base.Corr Model.Leaf Model.LeafSpec Gen.FactsLeaf.
+From SPV Require Export Base.Corr Model.BoolFlag Model.Leaf Model.LeafSpec Gen.FactsBool Gen.FactsLeaf.
 
 Record fcase := mkf {
   f_ty : ty;
   f_default : option value;              (* None = required field *)
   f_toks : option (list string);         (* tokens written after the field's option (None = not mentioned) *)
+  f_neg : bool;                          (* bool fields: the generated negative option (--no<name>) was the one written *)
   f_intended : option value;             (* the value the user meant (C02); None when the argv is a C04 mutation *)
   f_obs : option value                   (* the field's value in the returned instance (None when the parse failed) *)
 }.
 Record case := mkcase {
   c_fields : list fcase;                 (* mentioned fields first, in argv order *)
   c_outcome : res unit;                  (* Ok tt, or how parse_args ended *)
-  c_expect_reject : bool                 (* C04: the argv is a mutation that must be rejected *)
+  c_expect_reject : bool;                (* C04: the argv is a mutation that must be rejected *)
+  c_unknown_opt : bool                   (* the argv also contains an option that is not registered (nor an abbreviation) *)
 }.
 
 Definition field_result (f : fcase) : res value :=
   match f.(f_toks) with
-  | Some toks => leaf_parse_gen f.(f_ty) toks
+  | Some toks =>
+      if f.(f_neg) then
+        match toks with
+        | [] => Ok (VBool false)
+        | [s] => match str2bool_gen s with
+                 | None => Err (Exit 2)
+                 | Some b => match action_call_gen ["--neg"] "--neg" (CBool b) with Ok x => Ok (VBool x) | Err e => Err e end
+                 end
+        | _ => Err (Exit 2)
+        end
+      else leaf_parse_gen f.(f_ty) toks
   | None => match f.(f_default) with Some d => Ok d | None => Err (Exit 2) end
   end.
 
@@ -28,7 +40,10 @@ Definition model_outcome (c : case) : option err :=
   let written := filter (fun f => match f.(f_toks) with Some _ => true | None => false end) c.(c_fields) in
   match first_err (map field_result written) with
   | Some e => Some e
-  | None => first_err (map field_result c.(c_fields))
+  | None => match first_err (map field_result c.(c_fields)) with
+            | Some e => Some e
+            | None => if c.(c_unknown_opt) then Some (Exit 2) else None
+            end
   end.
 
 Definition in_scope (c : case) : bool := true.
